@@ -323,6 +323,108 @@ def lexErrK (text : List Char) : Chk (Out (Nat × Nat × Nat)) :=
       | .panic => .panic
       | .ok carets => .ok { allocs := [p.col, carets], res := .ok (p.line, p.col, carets) }
 
+/-! ## `Loop` attributes (`vm/loop_object.rs: get_value_by_str`) -/
+
+structure LoopAttrs where
+  index0 : Nat
+  index : Nat
+  length : Option Nat
+  revindex : Option Nat
+  revindex0 : Option Nat
+  first : Bool
+  last : Bool
+  depth : Nat
+  depth0 : Nat
+  deriving Repr, DecidableEq
+
+/-- `a + b` on `u64` -/
+def u64Add (a b : Nat) : Chk Nat := if a + b < 18446744073709551616 then .ok (a + b) else .panic
+
+/-- `idx` = the loop counter as `u64` (`!0` before the first item: every attribute is undefined),
+    `len` = `Some` for iterators with an exact size hint, `depth` = recursion depth of the loop -/
+def loopAttrsK (idx : Nat) (len : Option Nat) (depth : Nat) : Chk (Option LoopAttrs) :=
+  if idx = 18446744073709551615 then pure none
+  else do
+    let index ← u64Add idx 1                                     -- `idx + 1`
+    let last ← match len with
+      | none => pure false
+      | some l => if l = 0 then pure true else do                -- `len == 0 || idx == len - 1`
+          let m ← usub l 1
+          pure (idx == m)
+    let d1 ← usizeN (depth + 1)                                  -- `self.depth + 1`
+    pure (some { index0 := idx, index := index, length := len,
+                 revindex := len.map (· - idx),                  -- `saturating_sub`
+                 revindex0 := len.map (fun l => (l - idx) - 1),
+                 first := idx == 0, last := last, depth := d1, depth0 := depth })
+
+/-! ## `formatting.rs: apply_zero_padding` with a grouping option -/
+
+/-- length of `Self::group(num, sep, g)` for `n` digits: one separator before every full group but
+    the first -/
+def groupedLen (n g : Nat) : Nat := if n = 0 then 0 else n + (n - 1) / g
+
+/-- is position `i` of the grouped string a separator?  The first group has `n % g` digits (`g` if
+    that is 0), then separator and `g` digits alternate. -/
+def isSepAt (n g i : Nat) : Bool :=
+  let r := if n % g = 0 then g else n % g
+  decide (r ≤ i) && ((i - r) % (g + 1) == 0) && decide (i < groupedLen n g)
+
+/-- `numLen` = length of the (already grouped) number, `prefixLen` = its part before the first
+    separator, `fill` = zeros to insert, `g` = group size; result: length of the padded string -/
+def zeroPadK (numLen prefixLen fill g : Nat) : Chk (Out Nat) :=
+  if g = 0 then .panic                                            -- `num.len() % group_size`
+  else do
+    let n := prefixLen + fill                                     -- `zero_padded_prefix.len()`
+    let glen := groupedLen n g
+    let t1 ← usub glen prefixLen
+    let trim ← usub t1 fill                                       -- `trim_index`
+    if trim ≤ glen then                                           -- `&grouped_prefix[trim_index..]`
+      pure { allocs := [fill], res := .ok ((if isSepAt n g trim then 1 else 0) + (glen - trim) + (numLen - prefixLen)) }
+    else .panic
+
+/-! ## `value/merge_object.rs: MergeSeq` — the depth of lazily concatenated sequences is bounded -/
+
+/-- a value as far as concatenation is concerned: something else, or a `MergeSeq` with its stored
+    `depth` and its parts -/
+inductive MS where
+  | leaf
+  | node (depth : Nat) (children : List MS)
+
+def MS.stored : MS → Nat
+  | .leaf => 0
+  | .node d _ => d
+
+/-- `depth_for_values`: deepest `MergeSeq` among the parts (0 if none), plus one -/
+def depthForValues (vs : List MS) : Nat := (vs.map MS.stored).foldl max 0 + 1
+
+mutual
+  /-- `push_flattened_value`: the non-`MergeSeq` values below, in order -/
+  def MS.flatten : MS → List MS
+    | .leaf => [.leaf]
+    | .node _ cs => flattenList cs
+  def flattenList : List MS → List MS
+    | [] => []
+    | c :: cs => c.flatten ++ flattenList cs
+end
+
+/-- `MergeSeq::with_repr` -/
+def mkMergeSeq (maxDepth : Nat) (vs : List MS) : MS :=
+  let d := depthForValues vs
+  if d > maxDepth then
+    let fl := flattenList vs
+    .node (depthForValues fl) fl
+  else .node d vs
+
+mutual
+  /-- how deep iteration / `len` really recurse -/
+  def MS.real : MS → Nat
+    | .leaf => 0
+    | .node _ cs => realMax cs + 1
+  def realMax : List MS → Nat
+    | [] => 0
+    | c :: cs => max c.real (realMax cs)
+end
+
 /-! ## The kernels as they were before the C01 fixes (the panics that were found) -/
 namespace Legacy
 
